@@ -9,12 +9,14 @@ var Registry = map[string]func(tier string) int{
 
 // Worker is the entry point of explorer worker subprocesses.
 func Worker(args []string) int {
-	fmt.Println("no worker registered")
-	return 2
+	return exploreWorker(args)
 }
 
 // Replay re-executes a replay file.
 func Replay(prop, path string) int {
+	if p, ok := histProps[prop]; ok {
+		return replayHist(p, path)
+	}
 	fmt.Println("replay not implemented for", prop)
 	return 2
 }
